@@ -31,6 +31,10 @@ def mbox_cases(rng, n):
     for _ in range(n):
         name = "".join(rng.choice(alphabet) for _ in range(rng.randint(0, 20)))
         cases.append(f"mbox\t{name_field(name)}\t{hexs(rng.choice(ADDRS))}")
+    # the other constructors: TryFrom<(name, address)> keeps the name as given, From<Address> has no name
+    for name in NAMES:
+        if name is not None:
+            cases.append(f"mboxctor\t{hexs(name) if name else hexs(' ')}\t{hexs(rng.choice(GOOD_ADDRS))}")
     # every mailbox header (From, Sender, Cc, Bcc, Reply-To; To is the default above): the same wire-form checks
     for hk in "fscbr":
         for name in NAMES:
